@@ -189,6 +189,8 @@ class FnInfo:
         self.rec_paths = []             # sorted (dotted attribute path, lean parameter name)
         self.n_opaque = 0
         self.has_bool_or_list_attrs = False
+        self.rec_lists = []
+        self.rec_bools = []
 
     def result_shape(self):
         """shape of the Lean result: Python return value, then the mutated list parameters"""
@@ -507,6 +509,8 @@ class FnTranslator:
         info.extra_params = [f"{ln} = `{p}`" for p, ln in rec] + [f"{ln} = `{p}` (list)" for p, ln in recl] + \
             [f"{ln} = `{p}`" for p, ln in recb] + [f"{ln} = {d}" for ln, sh, d in self.opaque_params]
         info.has_bool_or_list_attrs = bool(recb or recl)
+        info.rec_lists = recl
+        info.rec_bools = recb
         info.py_params = [a_.arg for a_ in node.args.args]
         info.record_names = set(self.records) & set(info.py_params)
         info.rec_paths = rec
@@ -1167,6 +1171,8 @@ class FnTranslator:
             self.fail(node, "unsupported np.iinfo use")
         # record parameter attribute path (zero-argument method calls are path segments: `area.size().width`)
         dotted = self.record_path(node, env)
+        if dotted is not None and dotted in self.cfg.get("record_tuples", {}):
+            return [], self.record_tuple_value(dotted)
         if dotted is not None and dotted in self.cfg.get("record_lists", ()):
             if dotted not in self.record_lists:
                 self.record_lists[dotted] = self.param_name(dotted.replace(".", "_").replace("()", ""))
@@ -1184,6 +1190,17 @@ class FnTranslator:
             if v is not None and v[2][0] == "NT" and node.attr in NT_FIELDS[v[2][1]]:
                 return pre, self.nt_proj(v, NT_FIELDS[v[2][1]].index(node.attr))
         self.fail(node, f"attribute access `{ast.unparse(node)}`")
+
+    def record_tuple_value(self, dotted):
+        """a record attribute that is a named tuple, used as a value: the tuple of its field attributes"""
+        tname = self.cfg["record_tuples"][dotted]
+        comps = []
+        for f in NT_FIELDS[tname]:
+            d = dotted + "." + f
+            if d not in self.record_attrs:
+                self.record_attrs[d] = self.param_name(d.replace(".", "_").replace("()", ""))
+            comps.append(self.record_attrs[d])
+        return ("pure", "(" + ", ".join(comps) + ")", NT(tname))
 
     def nt_proj(self, v, i):
         n = len(NT_FIELDS[v[2][1]])
@@ -1221,6 +1238,19 @@ class FnTranslator:
                 return NP_TYPES[s[len(pfx):]]
         return None
 
+    def none_test(self, node, env):
+        """`rec.path is None` / `is not None`: an opaque boolean attribute of the record"""
+        if len(node.ops) == 1 and isinstance(node.ops[0], (ast.Is, ast.IsNot)) \
+                and isinstance(node.comparators[0], ast.Constant) and node.comparators[0].value is None:
+            lp = self.record_path(node.left, env)
+            if lp is not None:
+                key = lp + " is None"
+                if key not in self.record_bools:
+                    self.record_bools[key] = self.param_name((lp + "_is_None").replace(".", "_").replace("()", ""))
+                e = self.record_bools[key]
+                return [], ("atom", e if isinstance(node.ops[0], ast.Is) else f"(!{e})", B)
+        return None
+
     def enum_test(self, node, env):
         """`rec.path == Enum.MEMBER` / `!=`: an opaque boolean attribute of the record (a Bool parameter)"""
         if len(node.ops) == 1 and isinstance(node.ops[0], (ast.Eq, ast.NotEq)):
@@ -1236,7 +1266,7 @@ class FnTranslator:
         return None
 
     def compare(self, node, env):
-        et = self.enum_test(node, env)
+        et = self.enum_test(node, env) or self.none_test(node, env)
         if et is not None:
             return et
         pre, left = self.expr(node.left, env)
@@ -1475,8 +1505,8 @@ class FnTranslator:
             info = mod.translate(f)
         except Untranslatable as e:
             self.fail(node, f"call of `{f}`, which is outside the subset [{e}]")
-        if info.n_opaque or info.has_bool_or_list_attrs:
-            self.fail(node, f"call of `{f}`, which has opaque / boolean-attribute / list-attribute parameters")
+        if info.n_opaque:
+            self.fail(node, f"call of `{f}`, which has opaque parameters")
         if mod is not self.m:
             self.m.deps.add(mod.lean_module)
         if node.keywords:
@@ -1515,6 +1545,20 @@ class FnTranslator:
             if mine not in self.record_attrs:
                 self.record_attrs[mine] = self.param_name(mine.replace(".", "_").replace("()", ""))
             vals.append(("atom", self.record_attrs[mine], N))
+        for dotted, _ln in info.rec_lists:
+            root, rest_ = dotted.split(".", 1)
+            mine = rec_arg[root] + "." + rest_
+            if mine not in self.record_lists:
+                self.record_lists[mine] = self.param_name(mine.replace(".", "_").replace("()", ""))
+            vals.append(("atom", self.record_lists[mine], L(N)))
+        for key, _ln in info.rec_bools:
+            root, rest_ = key.split(".", 1)
+            mine = rec_arg[root] + "." + rest_
+            if mine not in self.record_bools:
+                nm = mine.replace(" == ", "_is_").replace(" is None", "_is_None")
+                nm = nm.split("_is_")[0] + "_is_" + nm.split("_is_")[1].split(".")[-1] if "_is_" in nm else nm
+                self.record_bools[mine] = self.param_name(nm.replace(".", "_").replace("()", ""))
+            vals.append(("atom", self.record_bools[mine], B))
         callee = info.lean_name if mod is self.m else info.qual
         r = self.tmp()
         if not info.mutated:
